@@ -1,1 +1,70 @@
-import RosedVerif.Spec.Pos
+/-
+C10 — Line count, per-line callbacks and line selection agree and round-trip.
+The line separator of an editor is `(ed.opts.withDefaults cxA).lineSep`; the decomposition is
+`Spec.linePieces` (each line with its terminator).
+-/
+import RosedVerif.Model.InstAFacts
+import RosedVerif.Model.LinesLemmas
+namespace RosedVerif.Props
+open RosedVerif
+
+theorem dLineSep_ne : cxA.dLineSep ≠ [] := by decide
+
+/-- the pieces — each line with its terminator — concatenate back to the original text, for every
+non-empty separator and both trailing-separator policies -/
+theorem C10_pieces_roundtrip (text sep : List Int) (nt : Bool) (h : sep ≠ []) :
+    (Spec.linePieces text sep nt).flatten = text := Spec.linePieces_flatten text sep nt h
+
+/-- LineCount = number of pieces; the lines an Apply callback sees are the pieces without terminators -/
+theorem C10_lineCount (ed : Editor Int) :
+    ed.lineCount cxA = (Spec.linePieces ed.text (ed.opts.withDefaults cxA).lineSep ed.opts.noTrailing).length :=
+  lineCount_eq_linePieces_length cxA dLineSep_ne ed
+
+theorem C10_lines (ed : Editor Int) :
+    ed.lines cxA = Spec.bareLines ed.text (ed.opts.withDefaults cxA).lineSep ed.opts.noTrailing :=
+  lines_eq_bareLines cxA ed
+
+/-- Apply: callbacks run over the lines in order with indexes 0..n-1, returned line lists are spliced
+in place, the trailing separator is kept exactly when the input had one (default policy) -/
+theorem C10_apply (ed : Editor Int) (f : Nat → List Int → List (List Int)) (o : Options Int) :
+    ed.applyOpts cxA f o = .ok (ed.withText
+      (Spec.apply ed.text (o.withDefaults cxA).lineSep (o.withDefaults cxA).noTrailing f)) :=
+  applyOpts_eq_spec cxA ed f o
+
+/-- a callback returning its argument reproduces the text exactly, for every non-self-overlapping
+(unbordered) separator -/
+theorem C10_apply_identity (ed : Editor Int) (o : Options Int)
+    (hu : Unbordered (o.withDefaults cxA).lineSep) :
+    ed.applyOpts cxA (fun _ l => [l]) o = .ok ed :=
+  applyOpts_id_of_unbordered cxA dLineSep_ne ed o hu
+
+/-- the hypothesis is needed: with the self-overlapping separator "aa" the identity callback does not
+reproduce "aaa" (this is why the property quantifies over non-self-overlapping separators) -/
+example : Spec.apply [7, 7, 7] [7, 7] false (fun _ l => [l]) ≠ [7, 7, 7] := by decide
+
+/-- Lines / LinesFrom / LinesTo select exactly the pieces of the documented normalised range, as a
+sub-editor whose byte range is [|before|, |before ++ selected|) -/
+theorem C10_lines_select (ed : Editor Int) (s e : Int) :
+    ed.linesSel cxA s e =
+      .ok (.sub
+        (Spec.selectLines ed.text (ed.opts.withDefaults cxA).lineSep ed.opts.noTrailing s e).2.1
+        ed.opts ed
+        (byteLen cxA
+          (Spec.selectLines ed.text (ed.opts.withDefaults cxA).lineSep ed.opts.noTrailing s e).1)
+        (byteLen cxA
+          ((Spec.selectLines ed.text (ed.opts.withDefaults cxA).lineSep ed.opts.noTrailing s e).1 ++
+           (Spec.selectLines ed.text (ed.opts.withDefaults cxA).lineSep ed.opts.noTrailing s e).2.1))) :=
+  linesSel_eq_spec cxA utf8Len_pos dLineSep_ne ed s e
+
+theorem C10_select_concat (text sep : List Int) (nt : Bool) (s e : Int) (h : sep ≠ []) :
+    (Spec.selectLines text sep nt s e).1 ++ (Spec.selectLines text sep nt s e).2.1 ++
+      (Spec.selectLines text sep nt s e).2.2 = text :=
+  Spec.selectLines_concat text sep nt s e h
+
+/-! non-vacuity: "\r\n" separator, unterminated last line, negative position -/
+example : Spec.linePieces [0x61, 0xd, 0xa, 0xd, 0xa, 0x62] [0xd, 0xa] false = [[0x61, 0xd, 0xa], [0xd, 0xa], [0x62]] := by
+  decide
+example : (Spec.selectLines [0x61, 0xa, 0x62, 0xa] [0xa] false (-1) Gen.endSentinel) = ([0x61, 0xa], [0x62, 0xa], []) := by
+  decide
+
+end RosedVerif.Props
